@@ -1,5 +1,6 @@
 mod alloc;
 mod api;
+mod conformance;
 mod fam_builder;
 mod fam_comm;
 mod fam_drop;
@@ -69,6 +70,14 @@ fn main() {
                     println!("{}", l);
                 }
             }
+        }
+        "conformance" => {
+            let (n, bad) = conformance::run();
+            for b in &bad {
+                println!("CONFORMANCE MISMATCH {}", b);
+            }
+            println!("conformance: {} scenarios compared with the real kernel, {} mismatches", n, bad.len());
+            std::process::exit(if bad.is_empty() { 0 } else { 2 });
         }
         "replay" => {
             let path = args.get(2).expect("replay file");
